@@ -3,6 +3,7 @@
 use super::basic::unexpected;
 use super::*;
 use mmv_base::fmtutil::{fmt_debug, split_top};
+use mmv_base::probe::{check_multiset, check_ordered, probe, ProbeOut, PROBE_NAMES};
 
 #[derive(Clone, Copy, Debug, PartialEq, Eq)]
 pub struct Y {
@@ -51,6 +52,7 @@ pub fn check_iter_debug<KD: Kind>(cx: &mut Ctx, what: &str, out: &str, rest: &[(
 
 impl<'c, KD: Kind, const N: usize> MapEng<'c, KD, N> {
     pub fn op_drain(&mut self, w: usize, _a: u8, b: u8, c: u8) {
+        use mmv_base::tl::Pk;
         let mut fault = false;
         let liar = self.liar;
         let step = self.cx.step;
@@ -61,7 +63,9 @@ impl<'c, KD: Kind, const N: usize> MapEng<'c, KD, N> {
             let before = slot.model.clone();
             let n = if liar { pre_obs.len() } else { before.len() };
             let take = scale(b, n + 2);
-            let end = (c as usize * 3) >> 7;
+            // 0 drop, 1 run to the end, 2 forget, 3.. = adaptor probe (nth/last/fold/count/skip) on the rest
+            let end = (c as usize * 8) >> 7;
+            let pk = ((_a & 0x1f) as usize * (n + 2)) >> 5;
             cx.bump(S::drains);
             if take > 0 && take < n && end != 1 {
                 cx.bump(S::partial_drains);
@@ -135,9 +139,31 @@ impl<'c, KD: Kind, const N: usize> MapEng<'c, KD, N> {
                         }
                     }
                 }
-                _ => {
+                0 => {
                     if let Err(p) = Self::lib(cx, move || drop(d)) {
                         fault |= unexpected(cx, liar, P10, &p);
+                    }
+                }
+                _ => {
+                    if ended || fault {
+                        let _ = Self::lib(cx, move || drop(d));
+                    } else {
+                        let po = probe(cx, KD::NOALLOC, d, end - 3, pk, N, |(k, v): (KD::K, KD::V)| {
+                            let y = ykv::<KD>(&k, &v);
+                            (y.raw, y.kid, y.val, y.vid)
+                        });
+                        if po.panicked == Some(Pk::Injected) {
+                            fault = true;
+                        } else if !liar {
+                            let rest: Vec<(i16, u32, i64, u32)> = before
+                                .iter()
+                                .filter(|(k, _)| !yielded.iter().any(|y| y.raw == **k as i16))
+                                .map(|(k, e)| (*k as i16, if KD::TRACKED { e.kid } else { NOID }, e.val as i64, if KD::TRACKED { e.vid } else { NOID }))
+                                .collect();
+                            let r = check_multiset(&po, &rest, true);
+                            cx.chk(P10, r.is_ok(), "adaptor", || format!("drain after {} of {n} items: {}", yielded.len(), r.clone().err().unwrap_or_default()));
+                            cx.log(|| format!("drain probe {}({pk}) -> {:?} tail {:?} count {:?}", PROBE_NAMES[end - 3], po.got, po.tail, po.count));
+                        }
                     }
                 }
             }
@@ -177,7 +203,7 @@ impl<'c, KD: Kind, const N: usize> MapEng<'c, KD, N> {
         self.after(P10.and(Prop::C01), P12);
     }
 
-    pub fn op_walk(&mut self, w: usize, a: u8, b: u8, _c: u8) {
+    pub fn op_walk(&mut self, w: usize, a: u8, b: u8, c: u8) {
         let liar = self.liar;
         let base = self.newval(0);
         let mut fault = false;
@@ -192,6 +218,9 @@ impl<'c, KD: Kind, const N: usize> MapEng<'c, KD, N> {
                 cx.bump(S::walks_cut_inside_after_swap);
             }
             let nv = |raw: u8| KD::vnorm(base | raw as u32);
+            // adaptor probe (nth / last / fold / count / skip) taken at the cut point
+            let pwhich = ((c >> 4) as usize * 5) >> 3;
+            let pk = ((c & 0x0f) as usize * (n + 2)) >> 4;
             const FLIP: u32 = 0x0080_0000;
             let model0 = slot.model.clone();
             let want_fmt = !liar && (cx.armed == Prop::C19 || cx.armed == Prop::C06);
@@ -204,10 +233,12 @@ impl<'c, KD: Kind, const N: usize> MapEng<'c, KD, N> {
                     let mut crest: Option<Vec<Y>> = None;
                     let mut ccount: Option<usize> = None;
                     let mut dbg: Option<(usize, String)> = None;
+                    let mut pout: Option<ProbeOut<Y>> = None;
                     let mut it = $mk;
                     loop {
                         hints.push((it.len(), it.size_hint()));
                         if ys.len() == cut {
+                            pout = Some(probe(cx, KD::NOALLOC, it.clone(), pwhich, pk, N, $ext));
                             let c1 = it.clone();
                             ccount = Self::lib(cx, move || c1.count()).ok();
                             let c2 = it.clone();
@@ -240,6 +271,12 @@ impl<'c, KD: Kind, const N: usize> MapEng<'c, KD, N> {
                         let rest = &ys[cut.min(total)..];
                         cx.chk(P09, cr.as_slice() == rest, "clone-continues", || format!("a clone of {} taken after {cut} items continues differently from the original", $name));
                         cx.chk(P09, ccount == Some(total - cut.min(total)), "count", || format!("{}: count() after {cut} of {total} items = {ccount:?}", $name));
+                    }
+                    if let Some(po) = &pout {
+                        if !liar && !fault {
+                            let r = check_ordered(po, &ys[cut.min(total)..], true);
+                            cx.chk(P09, r.is_ok(), "adaptor", || format!("{} after {cut} of {total} items: {}", $name, r.clone().err().unwrap_or_default()));
+                        }
                     }
                     if let Some((at, out)) = &dbg {
                         let rest: Vec<(u8, u32)> = ys[*at..].iter().map(|y| {
@@ -448,6 +485,29 @@ impl<'c, KD: Kind, const N: usize> MapEng<'c, KD, N> {
                     _ => Ok(total - c),
                 };
                 cx.chk(P09, cnt == Ok(total - c), "count", || format!("{name}: count() after {c} of {total} items = {cnt:?}"));
+                // adaptor probe on a fresh mutable iterator advanced to the cut (entries identified by address)
+                let rest_addr: Vec<(usize, usize)> = ys[c..].iter().map(|y| (y.ka, y.va)).collect();
+                let po: Option<ProbeOut<(usize, usize)>> = match kind {
+                    1 | 6 => {
+                        let mut it = m.iter_mut();
+                        for _ in 0..c {
+                            it.next();
+                        }
+                        Some(probe(cx, KD::NOALLOC, it, pwhich, pk, N, |(k, v): (&KD::K, &mut KD::V)| (addr(k), addr(v))))
+                    }
+                    4 => {
+                        let mut it = m.values_mut();
+                        for _ in 0..c {
+                            it.next();
+                        }
+                        Some(probe(cx, KD::NOALLOC, it, pwhich, pk, N, |v: &mut KD::V| (0usize, addr(v))))
+                    }
+                    _ => None,
+                };
+                if let Some(po) = &po {
+                    let r = check_ordered(po, &rest_addr, true);
+                    cx.chk(P09, r.is_ok(), "adaptor", || format!("{name} after {c} of {total} items: {}", r.clone().err().unwrap_or_default()));
+                }
             } else if wrote != 0 {
                 // keep the model in step even if unchecked
                 for y in &ys {
@@ -475,7 +535,9 @@ impl<'c, KD: Kind, const N: usize> MapEng<'c, KD, N> {
             let before = std::mem::take(&mut slot.model);
             let n = if liar { pre_obs.len() } else { before.len() };
             let take = scale(b, n + 2);
-            let end = (c as usize * 3) >> 7;
+            // 0 drop, 1 run to the end, 2 forget, 3.. = adaptor probe (nth/last/fold/count/skip) on the rest
+            let end = (c as usize * 8) >> 7;
+            let pk = ((a & 0x1f) as usize * (n + 2)) >> 5;
             cx.bump(S::consumes);
             if take > 0 && take < n && end != 1 {
                 cx.bump(S::partial_consumes);
@@ -572,9 +634,50 @@ impl<'c, KD: Kind, const N: usize> MapEng<'c, KD, N> {
                                 }
                             }
                         }
-                        _ => {
+                        0 => {
                             if let Err(p) = Self::lib(cx, move || drop(it)) {
                                 fault |= unexpected(cx, liar, P10, &p);
+                            }
+                        }
+                        _ => {
+                            if ended || fault {
+                                let _ = Self::lib(cx, move || drop(it));
+                            } else {
+                                let po = probe(cx, KD::NOALLOC, it, end - 3, pk, N, |x| {
+                                    let y: Y = ($ext)(x);
+                                    (y.raw, y.kid, y.val, y.vid)
+                                });
+                                if po.panicked == Some(mmv_base::tl::Pk::Injected) {
+                                    fault = true;
+                                } else if !liar {
+                                    // entries not yet handed out, in the projection of this iterator
+                                    let mut pool: Vec<(u8, Ent)> = before.iter().map(|(k, e)| (*k, *e)).collect();
+                                    for y in yielded.iter() {
+                                        let pos = if y.raw >= 0 {
+                                            pool.iter().position(|(k, _)| *k as i16 == y.raw)
+                                        } else {
+                                            pool.iter().position(|(_, e)| e.val as i64 == y.val && (!KD::TRACKED || e.vid == y.vid))
+                                        };
+                                        if let Some(p) = pos {
+                                            pool.remove(p);
+                                        }
+                                    }
+                                    let rest: Vec<(i16, u32, i64, u32)> = pool
+                                        .iter()
+                                        .map(|(k, e)| {
+                                            let kk = (*k as i16, if KD::TRACKED { e.kid } else { NOID });
+                                            let vv = (e.val as i64, if KD::TRACKED { e.vid } else { NOID });
+                                            match $proj {
+                                                0 => (kk.0, kk.1, vv.0, vv.1),
+                                                1 => (kk.0, kk.1, -1, NOID),
+                                                _ => (-1, NOID, vv.0, vv.1),
+                                            }
+                                        })
+                                        .collect();
+                                    let r = check_multiset(&po, &rest, true);
+                                    cx.chk(P10, r.is_ok(), "adaptor", || format!("{} after {} of {n} items: {}", $name, yielded.len(), r.clone().err().unwrap_or_default()));
+                                    cx.log(|| format!("{} probe {}({pk}) -> {:?} tail {:?} count {:?}", $name, PROBE_NAMES[end - 3], po.got, po.tail, po.count));
+                                }
                             }
                         }
                     }
